@@ -25,7 +25,7 @@ use hx_native::{AcctSpec, World};
 use star_frame::{
     account_set::{
         account::{CloseAccount, NormalizeRent, ReceiveRent, RefundRent},
-        AccountSetCleanup, AccountSetDecode, AccountSetValidate, CanAddLamports, CanFundRent,
+        AccountSetCleanup, AccountSetDecode, AccountSetValidate, CanFundRent,
     },
     pinocchio::sysvars::rent::Rent,
     prelude::*,
@@ -904,7 +904,8 @@ pub fn run_c12(args: &Args) {
         id += 1;
         let rent = *rng.pick(&RENTS);
         let ty = *rng.pick(&["zc16", "zclist", "borsh"]);
-        let val = rng.pick(&values(ty, &mut rng.fork(), 4)).clone();
+        let vals = values(ty, &mut rng.fork(), 4);
+        let val = rng.pick(&vals).clone();
         let twist = if i % 3 == 0 { 0 } else { 1 + (rng.below(7) as usize) };
         let (h, l) = c12_case(id, &mut rng.fork(), rent, ty, rng.chance(1, 2), rng.below(14) as usize, rng.chance(1, 2), rng.chance(1, 2), rng.chance(1, 2), &val, twist);
         run_case(&mut rec, &h, &l);
